@@ -240,6 +240,16 @@ Definition step (w : world) (o : op) : world * list obs :=
     | Some pl => (setpk w (n 0%nat) (set_payload p {| pl_type := pl_type pl; pl_data := set_data 8 (pl_data pl) (b 0%nat) |}), [])
     | None => (w, [])
     end
+  else if c =? 56 then
+    (* in-place edit of one header FIELD of the packet's payload through the typed setter (EthernetPayload::setFlags on the payload the
+       packet owns): bytes 0-1 change, nothing else; payloads shorter than the 6-byte header are left alone *)
+    let p := getpk w (n 0%nat) in
+    match p_pl p with
+    | Some pl => if 6 <=? zlen (pl_data pl)
+                 then (setpk w (n 0%nat) (set_payload p {| pl_type := pl_type pl; pl_data := put_be 0 2 (n 1%nat mod 65536) (pl_data pl) |}), [])
+                 else (w, [])
+    | None => (w, [])
+    end
   else if c =? 43 then
     (* Payload::setMessageType + setRawPayloadType on the packet's payload: the type changes, the bytes stay *)
     let p := getpk w (n 0%nat) in
